@@ -122,6 +122,15 @@ func (r *x1c20split) noteLines(s string) {
 	}
 }
 
+func (r *x1c20split) noteLarge(what string, ps []string) {
+	longest := 0
+	for _, p := range ps {
+		longest = max(longest, len(p))
+	}
+	lbNote(r.st, what+"-pieces", len(ps))
+	lbNote(r.st, what+"-longest-piece", longest)
+}
+
 func (r *x1c20split) Exec(op []string) string {
 	switch op[0] {
 	case "reset":
@@ -129,11 +138,16 @@ func (r *x1c20split) Exec(op []string) string {
 	case "split":
 		s, sep := string(c20Unhex(op[1])), string(c20Unhex(op[2]))
 		r.noteSplit(s, sep)
-		return x1c20Fmt(mstr.Split(s, sep))
+		ps := mstr.Split(s, sep)
+		r.noteLarge("split", ps)
+		lbNote(r.st, "split-sep-len", len(sep))
+		return x1c20Fmt(ps)
 	case "lines":
 		s := string(c20Unhex(op[1]))
 		r.noteLines(s)
-		return x1c20Fmt(mstr.Lines(s))
+		ps := mstr.Lines(s)
+		r.noteLarge("lines", ps)
+		return x1c20Fmt(ps)
 	}
 	return "bad-op"
 }
@@ -269,6 +283,7 @@ func genX1C20Split(g *G) {
 		}
 		g.Case(ops)
 	}
+	genX1C20SplitLarge(g)
 }
 
 func init() {
